@@ -664,6 +664,14 @@ func (fc *funcCtx) localEnv(st *State, l *Loop) *Env {
 			env.vars[k] = v
 		}
 	}
+	// locals renamed since the contract was written are reachable under their old names
+	for old, cur := range fc.rename {
+		if v, ok := env.vars[cur]; ok {
+			if _, clash := env.vars[old]; !clash {
+				env.vars[old] = v
+			}
+		}
+	}
 	oldVars := map[string]Value{}
 	for k, v := range st.entryVals {
 		oldVars[k] = v
